@@ -495,7 +495,9 @@ class Schema(dict, metaclass=LogicalMeta):
         dict.update(obj, self)
         # since self.<data> is validated
         # we directly call dict.update to avoid calling the parsing methods again
-        obj.__dict__ = self.__dict__
+        # the attributes (no_output fields, options) are copied as well: sharing the attribute dict would make
+        # an assignment to the copy change the original behind its back (its dependent properties stay as they were)
+        obj.__dict__ = dict(self.__dict__)
         return obj
 
     def clear(self):
